@@ -32,7 +32,7 @@ EXHAUSTIVE = False
 THEOREMS = [
     "PEval.C10." + t
     for t in [
-        "call_site_keywords_declared", "critical_params_declared", "transforms_passed_to_filters",
+        "call_site_keywords_declared", "critical_params_declared",
         "isTarget_iff_criteria", "filter_sublist", "mem_filter_iff", "filter_exact", "filter_idem",
         "filter_mono", "fp_label_passes", "unknown_uses_mean", "resultTarget_iff", "filterResults_both",
         "filterResults_idem", "no_exception_in_contract", "dist_encoding_sound", "frame_invariant",
